@@ -50,3 +50,18 @@ def fd_valid(ctx, prog, rule='FD-VALID'):
                 continue
             ctx.ob(rule, key, ok, f.loc(c), 'descriptor test `%s`%s' % (f.s(c)[:60], '' if ok else ': treats descriptor 0 as invalid (0 is what open () returns when stdin is closed) — the descriptor is never closed / the file is rejected'), None)
     ctx.require(n >= 6, 'only %d descriptor validity tests found' % n)
+
+def state_pair(ctx, prog):
+    ctx.rule('STATE-PAIR', 'psf_use_rsrc (psf, SF_TRUE) swaps the resource-fork descriptor into file.filedes (the data descriptor is parked in savedes); every path from such a call to the exit of the '
+             'function passes psf_use_rsrc (psf, SF_FALSE) — a return in between leaves the descriptors swapped: psf_close then closes the fork twice and never the data file', floor=3)
+    npair = 0
+    for f in sorted(prog.lib_fns(), key=lambda f: (f.file, f.line)):
+        on = [c for c in f.calls('psf_use_rsrc') if f.unwrap(f.args(c)[1]).get('v') == 1]
+        off = [c for c in f.calls('psf_use_rsrc') if f.unwrap(f.args(c)[1]).get('v') == 0]
+        for k, c in enumerate(on):
+            npair += 1
+            ok, w = f.cfg.must_pass(c, off) if off else (False, None)
+            ctx.ob('STATE-PAIR', '%s#%d' % (f.name, k + 1), ok, f.loc(c), 'resource-fork descriptor %s' % ('is switched back on every path to the exit' if ok else
+                   'is NOT switched back on a path to the exit (lines %s)' % (f.cfg.block_lines(w) if w else '?')), None)
+    ctx.require(npair >= 3, 'only %d psf_use_rsrc (psf, SF_TRUE) calls found' % npair)
+
